@@ -30,6 +30,7 @@ CONSTANTS MaxSpans, MaxTraces, Services,   \* Services: a sequence, e.g. <<"A","
           Orders,                          \* subset of {"fwd","rev","rot"}
           PageSize,                        \* result page size of the trace list (50 in the code)
           MinSpans,                        \* a forest has at least this many spans (biases the simulation runs)
+          MinEntries,                      \* 0, or: some service has at least this many entry spans (RED-rich forests)
           ResolveInTrace                   \* TRUE: a parent id is resolved among the spans of the same trace.
                                            \* FALSE (model sensitivity run): among all spans, as a map keyed
                                            \* by span id alone would do
@@ -43,7 +44,9 @@ vars == <<forest, phase, mal, order, pending, stored, batches, flushEach>>
 Missing == 99
 MalKinds == {"missingparent", "secondroot", "cycleroot", "cycleinner", "selfparent", "dupintrace", "dupacross", "skew"}
 NoMal == [kind |-> "none", i |-> 0, j |-> 0]
-Durs == <<40, 10, 30, 5, 20, 50, 15, 25, 35, 45>>     \* distinct durations (ms) per span ordinal
+\* durations (ms) per span ordinal: values repeat (a real service has many requests of the same whole-millisecond
+\* latency), so the entry spans of a service form multisets like {10, 10, 10, 30}
+Durs == <<40, 10, 30, 10, 20, 10, 30, 20, 40, 10>>
 SvcIdx(s) == CHOOSE k \in DOMAIN Services : Services[k] = s
 
 (* ------------------------------------------------------------------ span sets *)
@@ -99,6 +102,11 @@ SortedDurs(E) == SortSeq(SetToSeq({<<c.dur, c.id>> : c \in E}), LAMBDA a, b : a[
 (* the p-th percentile lies between the two order statistics around rank p*(n-1)/100 *)
 PctLo(E, p) == SortedDurs(E)[(p * (Cardinality(E) - 1)) \div 100 + 1][1]
 PctHi(E, p) == SortedDurs(E)[(p * (Cardinality(E) - 1) + 99) \div 100 + 1][1]
+(* position of the rank between the two, in hundredths.  The usual definitions of "the p-th percentile" are functions of
+   (lo, hi, frac): lower = lo, higher = hi, nearest = IF frac < 50 THEN lo ELSE hi, midpoint = (lo+hi)/2, linear =
+   lo + (hi-lo)*frac/100 (what FindPercentileData computes).  Any ONE of them is admissible, used for every service
+   and every percentile. *)
+PctFrac(E, p) == (p * (Cardinality(E) - 1)) % 100
 
 (* ------------------------------------------------------------------ building the forest *)
 NextId == Len(forest) + 1
@@ -134,6 +142,7 @@ AddChain ==
   /\ UNCHANGED <<phase, mal, order, pending, stored, batches, flushEach>>
 EndBuild ==
   /\ phase = "build" /\ Len(forest) >= MinSpans
+  /\ (MinEntries = 0 \/ \E svc \in ServicesIn(F) : Cardinality(Entries(F, svc)) >= MinEntries)
   /\ phase' = "mal"
   /\ \E o \in Orders, fe \in BOOLEAN :
        /\ order' = (IF Mode = "forest" THEN order ELSE o) /\ flushEach' = (IF Mode = "forest" THEN flushEach ELSE fe)
